@@ -39,7 +39,8 @@ def judge(prop, ref, res, where):
                         % (cubes.first_difference(ref, res.out), sess.switches, sess.steps))
 
 
-PASTS = ("fresh", "fresh", "fresh", "served-serial", "served-pooled", "interrupted-serial", "interrupted-pooled")
+PASTS = ("fresh", "fresh", "fresh", "served-serial", "served-pooled", "interrupted-serial", "interrupted-pooled",
+         "served-pooled-then-dims-edited")
 
 
 def with_past(w, poolsize, past, seed):
@@ -47,6 +48,25 @@ def with_past(w, poolsize, past, seed):
     not of brand-new cube objects): served normally, or interrupted by the caller's callback."""
     from .interrupt import Injector, Interrupt
 
+    if past == "served-pooled-then-dims-edited":
+        if w["cube"] != "xcube" or w["N"] < 2:
+            past = "served-pooled"
+        else:
+            # the cube was built and served while the caller's dimension arrays held OTHER data; the caller has since
+            # loaded the present data into the same arrays (the array cube keeps the caller's arrays by reference)
+            import numpy
+
+            before = dict(w, dims=[dict(d, values=list(reversed(d["values"]))) for d in w["dims"]])
+            dims = cubes.build_dims(before)
+            cube = cubes.build_cube(before, dims)
+            cube, _how = poolrun.engage(before, cube, poolsize)
+            aggs = cubes.build_aggs(w)
+            poolrun.pooled_eval(before, poolsize, {"strategy": "rtc"}, rng=random.Random(seed), cube=cube, aggs=aggs)
+            for arr, d in zip(cube.dims, cubes.build_dims(w)):
+                if isinstance(arr, numpy.ndarray) and arr.flags.writeable and arr.shape == d.shape:
+                    arr[...] = d
+            cube.parallel = True
+            return cube, cubes.build_aggs(w)
     cube = cubes.build_cube(w)
     cube, _how = poolrun.engage(w, cube, poolsize)
     aggs = cubes.build_aggs(w)
